@@ -96,6 +96,18 @@ theorem baseMult_eq (F : Bytes → Bytes → Bytes) (hF : ∀ a b, (F a b).lengt
   · intro o ho; rw [h1, (h.2 o ho).1]
   · intro he; rw [h1, h.1.mp he]
 
+/-! ### non-vacuity of the wrapper theorems: both outcomes occur for 32-byte inputs -/
+
+-- an `F` that meets the contract (32 bytes out) and hits the error branch / the success branch
+example : X25519 (fun _ _ => zeros 32) (zeros 32) (zeros 32) = .err ∧
+    ScalarMult (fun _ _ => zeros 32) (List.replicate 32 0xaa) (zeros 32) (zeros 32) = zeros 32 := by decide
+example : X25519 (fun s _ => s) (List.replicate 32 7) (zeros 32) = .ok (List.replicate 32 7) ∧
+    ScalarMult (fun s _ => s) (List.replicate 32 0xaa) (List.replicate 32 7) (zeros 32) = List.replicate 32 7 ∧
+    ScalarBaseMult (fun s _ => s) (List.replicate 32 0xaa) (List.replicate 32 7) = .dst (List.replicate 32 7) := by
+  decide
+-- wrong lengths: the hypothesis of `X25519_len_err`
+example : X25519 (fun s _ => s) (List.replicate 31 7) (zeros 32) = .err := by decide
+
 /-! ## little-endian bytes: what `modify` at one index does to the integer -/
 
 theorem natOfLE_lt (l : Bytes) : natOfLE l < 256 ^ l.length := by
@@ -473,6 +485,9 @@ theorem X25519_err_of_u_zero (s pt : Bytes) (hs : s.length = 32) (hp : pt.length
     unfold rfcX25519
     rw [ladder_zero_of_u_zero _ _ h, encodeU_zero]
   exact ⟨hz, (X25519_err_iff_zero rfcX25519 rfcX25519_length s pt hs hp).1.mpr hz⟩
+
+-- non-vacuity of `ladder_zero_of_u_zero`: a non-zero integer u with u ≡ 0, and a scalar in clamped range
+example : p % p = 0 ∧ p ≠ 0 ∧ 2 ^ 254 ≤ decodeScalar (List.replicate 32 0) := by decide
 
 /-- the four 32-byte strings with `decodeU ≡ 0` -/
 theorem u_zero_encodings :
